@@ -707,6 +707,32 @@ def scenario_recursive(run, nseq, algs=None, backends=('plain', 'dictarch', 'fil
         run.jobs.append((cfg, ops, None))
 
 
+def scenario_twin(run, nseq, length, skip, algs=('lru', 'mru', 'lfu', 'inf', 'no'), backends=('plain', 'dictarch', 'file')):
+    """a difference test: two instances with the same configuration and independent storage receive the same operations,
+    except that the operations in `skip` (key()/lookup() queries, or calls that raise) only go to instance 1; after every
+    common operation instance 2 must be exactly where instance 1 is.  (rr_cache is random: not included)"""
+    rng = run.rng
+    for _ in range(nseq):
+        alg = rng.choice(list(algs))
+        module = rng.choice(['std', 'safe'])
+        backend = rng.choice(list(backends))
+        cfg = py_cfg(module, alg, rng.choice([1, 2, 3]), backend, rng.choice([('str', True, False), ('hash-md5', True, False)]),
+                     purge=rng.random() < 0.25, ni=2)
+        ops = [{'op': 'decorate', 'i': 2, 'backend': backend}]
+        for o in cd.random_ops(rng, length, cfg, 9, 'mixed'):
+            if o['op'] in ('arch_off', 'arch_on', 'set_archive', 'sync'):
+                continue
+            if rng.random() < 0.3:
+                o = {'op': rng.choice(['lookup', 'key']), 'a': rng.randint(1, 7)} if 'lookup' in skip else {'op': 'call', 'a': rng.choice([8, 9])}
+            raising = o['op'] == 'call' and o['a'] in (8, 9)
+            if o['op'] in skip or (raising and 'raise' in skip):
+                ops.append(dict(o, i=1))
+            else:
+                ops.append(dict(o, i=1))
+                ops.append(dict(o, i=2, mirror=1))
+        run.jobs.append((cfg, ops, None))
+
+
 def scenario_probes(run, kinds, modules=('std', 'safe'), backends=('plain', 'dictarch')):
     """deterministic probes of corners that random walks reach only by luck (each was motivated by a seeded change that a
     run of random walks missed): what follows a clear(keepstats), the LRU/MRU queue compaction, an unkeyable call
@@ -936,6 +962,7 @@ def check_C16(tier):
     t = tier == 'thorough'
     scenario_unkeyable(run, 4 if t else 1, 25 if t else 18)
     scenario_probes(run, {'unkey'})
+    scenario_twin(run, 1200 if t else 200, 30 if t else 24, skip={'raise'})
     scenario_recursive(run, 1000 if t else 150, raising=True)
     scenario_random(run, ALLALG, ['std', 'safe'], ['plain', 'dictarch', 'file', 'dir', 'direct-dict'],
                     1000 if t else 150, 40 if t else 25)
@@ -950,6 +977,10 @@ def check_C18(tier):
                 depth_q=5, depth_t=7, sim_num=(8, 60), exh_depth=(4, 5), exh_ops={'call', 'lookup', 'clear'})
     t = tier == 'thorough'
     scenario_probes(run, {'peek'})
+    scenario_twin(run, 1500 if t else 250, 30 if t else 24, skip={'lookup', 'key'})
+    # equal arguments of different types under keymaps that keep the types apart
+    scenario_random(run, ALLALG, ['std', 'safe'], ['plain', 'dictarch', 'file'], 600 if t else 100, 25, nx=6, variants=('eqtypes',),
+                    keymaps=[('str', True, False), ('raw', True, True), ('pickle', True, False), ('hash-md5', True, True), ('str-repr', True, False)])
     rng = run.rng
     n = 2000 if t else 300
     for _ in range(n):
